@@ -757,8 +757,21 @@ func depClosure(info *types.Info, fd *ast.FuncDecl) map[types.Object]map[types.O
 		case nil:
 			return
 		case *ast.BlockStmt:
+			cur := ctrl
 			for _, x := range s.List {
-				walk(x, ctrl)
+				walk(x, cur)
+				// what follows a guard clause (an if without else whose body leaves) runs only when
+				// the guard did not hold: it depends on the guard's condition
+				if is, ok := x.(*ast.IfStmt); ok && is.Else == nil && len(is.Body.List) > 0 {
+					switch last := is.Body.List[len(is.Body.List)-1].(type) {
+					case *ast.ReturnStmt, *ast.BranchStmt:
+						cur = append(append([]types.Object{}, cur...), idents(is.Cond)...)
+					case *ast.ExprStmt:
+						if call, ok := last.X.(*ast.CallExpr); ok && noReturnCall(info, call) {
+							cur = append(append([]types.Object{}, cur...), idents(is.Cond)...)
+						}
+					}
+				}
 			}
 		case *ast.IfStmt:
 			walk(s.Init, ctrl)
@@ -768,6 +781,30 @@ func depClosure(info *types.Info, fd *ast.FuncDecl) map[types.Object]map[types.O
 		case *ast.ForStmt:
 			walk(s.Init, ctrl)
 			c2 := append(append([]types.Object{}, ctrl...), idents(s.Cond)...)
+			// the conditions under which the loop is left from inside decide how often it runs
+			ast.Inspect(s.Body, func(y ast.Node) bool {
+				if _, isLit := y.(*ast.FuncLit); isLit {
+					return false
+				}
+				if is, ok := y.(*ast.IfStmt); ok {
+					leaves := false
+					ast.Inspect(is.Body, func(z ast.Node) bool {
+						switch b := z.(type) {
+						case *ast.BranchStmt:
+							if b.Tok == token.BREAK {
+								leaves = true
+							}
+						case *ast.ReturnStmt:
+							leaves = true
+						}
+						return true
+					})
+					if leaves {
+						c2 = append(c2, idents(is.Cond)...)
+					}
+				}
+				return true
+			})
 			walk(s.Body, c2)
 			walk(s.Post, c2)
 		case *ast.RangeStmt:
@@ -1131,7 +1168,9 @@ func runC16(c *Ctx, r *Rec) {
 				}
 			}
 			if bad == "" && loop != nil {
-				if _, s := coveringLoop(c, info, loop); s != "" && !strings.HasPrefix(s, "a continue") {
+				if _, s := coveringLoop(c, info, loop); strings.HasPrefix(s, "skip:") {
+					bad = s
+				} else if s != "" && !strings.HasPrefix(s, "a continue") {
 					bad = "the loop over the requested keys can stop early: " + s
 				}
 			}
